@@ -27,7 +27,7 @@ RULE = (
     "injected abort / stop at every event-loop position before clean-up. Oracle: per affected motor the commanded targets are "
     "(a prefix of) initial+requested offset in order (consecutive duplicates merged; unaffected motors get the raw value); for the "
     "resetting programs every motor that received a body move has `initial` as its last commanded target, and in part E ends "
-    "physically at its initial position. Non-trivial = a motor with non-zero initial position was moved by a non-zero offset "
+    "physically at its initial position. Part P (pseudo positioners): relative_set_wrapper, reset_positions_wrapper and their composition with a device set that names a whole pseudo positioner P (two coupled axes a, b), one of its axes, or P and an axis; the plan is every sequence of length <= 2 (thorough 3) over {move P, move a, move b, move a again}, clean run plus an exception thrown at every body message: every commanded target is initial + offset (P and its axes are one coupled unit, all relative to the positions before the first move) and after the clean-up both axes are physically back at their initial positions. Non-trivial = a motor with non-zero initial position was moved by a non-zero offset "
     "(so absolute and relative, reset and not reset, are distinguishable)."
 )
 ASSUMPTIONS = [
@@ -267,6 +267,8 @@ def items(tier, seed):
     e_cases = [c for p in progs for c in _combos(tier, p, "E")]
     out = [{"cases": g_cases[i : i + 40]} for i in range(0, len(g_cases), 40)]
     out += [{"cases": [c]} for c in e_cases]
+    p_cases = _p_cases(tier)
+    out += [{"cases": p_cases[i : i + 30]} for i in range(0, len(p_cases), 30)]
     return out
 
 
@@ -337,6 +339,166 @@ def run_G(case):
             classes[c] = classes.get(c, 0) + 1
     return results, {"runs": runs, "steps": steps, "nontrivial": nontrivial, "classes": classes}
 
+
+
+# --------------------------------------------------------------------------- part P (pseudo positioners)
+# A whole pseudo positioner P (two coupled pseudo axes a, b) in the wrappers' device set; the plan moves P as a whole and
+# its axes individually, in every order of a small alphabet.  Own tiny driver: 'set' is applied to the fakes at once.
+
+P_INIT = (1.5, -2.0)
+P_OPS = {"P": ("P", (2.0, 0.5)), "a": ("a", 1.5), "b": ("b", -2.0), "a2": ("a", 0.5)}
+P_WRAPPERS = ("relative", "reset", "reset_rel")
+P_DEVSETS = ("parent", "axis", "parent+axis")
+
+
+def _pseudo_fakes():
+    import numpy as np
+
+    class Axis:
+        def __init__(self, name, pos):
+            self.name, self.position, self.parent = name, float(pos), None
+
+        def __repr__(self):
+            return self.name
+
+    class Parent:
+        RealPosition = tuple  # duck marker bluesky.utils.merge_axis looks for
+        parent = None
+        real_positioners = ()
+
+        def __init__(self, axes):
+            self.name = "P"
+            self.pseudo_positioners = tuple(axes)
+            for x in axes:
+                x.parent = self
+
+        @property
+        def position(self):
+            return np.array([x.position for x in self.pseudo_positioners])
+
+        def __repr__(self):
+            return self.name
+
+    a, b = Axis("a", P_INIT[0]), Axis("b", P_INIT[1])
+    return Parent((a, b)), a, b
+
+
+def _p_cases(tier):
+    L = 2 if tier == "quick" else 3
+    out = []
+    for w in P_WRAPPERS:
+        for ds in P_DEVSETS:
+            for n in range(1, L + 1):
+                for seq in itertools.product(P_OPS, repeat=n):
+                    out.append(("P", f"pseudo:{w}", list(seq), [0, 0], [ds]))
+    return out
+
+
+def run_P(case):
+    import numpy as np
+    from bluesky import preprocessors as bpp
+    from bluesky.utils import Msg, RequestAbort, RequestStop
+
+    w = case[1].split(":")[1]
+    seq, ds = case[2], case[4][0]
+
+    def plan_for(P, a, b):
+        objs = {"P": P, "a": a, "b": b}
+        devs = {"parent": [P], "axis": [a], "parent+axis": [P, b]}[ds]
+
+        def body():
+            for op in seq:
+                o, v = P_OPS[op]
+                yield Msg("set", objs[o], np.array(v) if o == "P" else v, group="g")
+                yield Msg("wait", None, group="g")
+
+        if w == "relative":
+            return bpp.relative_set_wrapper(body(), devs)
+        if w == "reset":
+            return bpp.reset_positions_wrapper(body(), devs)
+        return bpp.reset_positions_wrapper(bpp.relative_set_wrapper(body(), devs), devs)
+
+    def drive_p(throw_at=None):
+        P, a, b = _pseudo_fakes()
+        gen = plan_for(P, a, b)
+        trace, body_sets = [], 0
+        outcome, exc = "return", None
+        resp = None
+        pending = None
+        try:
+            while True:
+                if pending is not None:
+                    m = gen.throw(pending)
+                    pending = None
+                else:
+                    m = gen.send(resp)
+                resp = None
+                k = len(trace)
+                trace.append(m)
+                if throw_at is not None and throw_at[0] == k:
+                    pending = throw_at[1]
+                    continue
+                if m.command == "set":
+                    v = m.args[0]
+                    if m.obj is P:
+                        for x, xv in zip(P.pseudo_positioners, v):
+                            x.position = float(xv)
+                    else:
+                        m.obj.position = float(v)
+        except StopIteration:
+            pass
+        except BaseException as e:  # noqa: BLE001
+            outcome, exc = "raise", e
+        return {"trace": trace, "outcome": outcome, "exc": exc, "final": (a.position, b.position), "objs": (P, a, b)}
+
+    def judge_p(o, complete, n_body):
+        """n_body: number of body set messages that were yielded."""
+        vs = []
+        P, a, b = o["objs"]
+        covered_rel = {"parent": {P, a, b}, "axis": {P, a, b}, "parent+axis": {P, a, b}}[ds] if w in ("relative", "reset_rel") else set()
+        sets = [t for t in o["trace"] if t.command == "set"]
+        for i, (op, t) in enumerate(zip(seq, sets[:n_body])):
+            oname, v = P_OPS[op]
+            obj = {"P": P, "a": a, "b": b}[oname]
+            if t.obj is not obj:
+                vs.append(("wrong-device", 0, f"body move #{i} went to {t.obj!r}, plan asked for {obj!r}"))
+                continue
+            init = np.array(P_INIT) if obj is P else (P_INIT[0] if obj is a else P_INIT[1])
+            want = (init + np.array(v)) if obj in covered_rel else np.array(v)
+            if not np.allclose(np.array(t.args[0], dtype=float), np.array(want, dtype=float), atol=TOL):
+                vs.append(("wrong-relative-target", 0, f"body move #{i} ({op}) commanded {t.obj!r} to {t.args[0]}, initial {init} + offset {v} = {want}"))
+        if w in ("reset", "reset_rel") and complete and n_body > 0:
+            fa, fb = o["final"]
+            if abs(fa - P_INIT[0]) > TOL or abs(fb - P_INIT[1]) > TOL:
+                vs.append(("not-at-initial-position", 0, f"after the clean-up the pseudo axes are at {(fa, fb)}, initially {P_INIT}"))
+        return vs
+
+    results = []
+    clean = drive_p()
+    n_sets_body = len(seq)
+    if clean["outcome"] != "return":
+        e = clean["exc"]
+        return [(("plan-raised", 0, f"clean run raised {type(e).__name__}: {e}"), "clean", None)], {"runs": 1, "steps": len(clean["trace"]), "nontrivial": False, "classes": {"clean:raised": 1}}
+    vs = judge_p(clean, True, n_sets_body)
+    results += [(v, "clean", None) for v in vs]
+    classes = {"clean:ok" if not vs else "clean:VIOL": 1}
+    # body = up to and including the wait after the last body set
+    set_idx = [i for i, m in enumerate(clean["trace"]) if m.command == "set"]
+    body_end = set_idx[n_sets_body - 1] + 2
+    runs, steps = 1, len(clean["trace"])
+    for k in range(body_end):
+        for exc_name, exc in (("failure", RuntimeError("injected")), ("stop", RequestStop()), ("abort", RequestAbort())):
+            o = drive_p(throw_at=(k, exc))
+            runs += 1
+            steps += len(o["trace"])
+            nb = sum(1 for i in set_idx[:n_sets_body] if i <= k)
+            vs = judge_p(o, True, nb)
+            cmd = clean["trace"][k].command
+            results += [(v, exc_name, f"thrown as the response to message #{k} ({cmd})") for v in vs]
+            c = f"{exc_name}@body:{cmd}:{'ok' if not vs else 'VIOL'}:{o['outcome']}"
+            classes[c] = classes.get(c, 0) + 1
+    objs_moved = {P_OPS[op][0] for op in seq}
+    return results, {"runs": runs, "steps": steps, "nontrivial": len(objs_moved) >= 2 and "P" in objs_moved, "classes": classes}
 
 # --------------------------------------------------------------------------- part E
 
@@ -458,18 +620,25 @@ def run_E(case, all_positions=True):
 
 
 def _show(case):
+    if case[0] == "P":
+        return f"[pseudo] {case[1]} devices={case[4][0]} plan moves {case[2]} (P=(a,b) initially {P_INIT}; P by {P_OPS['P'][1]}, a by 1.5, b by -2.0, a2: a by 0.5)"
     part, prog, inits, (a, b), kinds = case[:5]
     return f"[{'engine' if part == 'E' else 'responder'}] {prog}(a={a}, b={b}) motors " + ", ".join(f"m{i}:{k}@{x}" for i, (k, x) in enumerate(zip(kinds, inits)))
 
 
 def run_case(case, only=None):
     part = case[0]
-    results, info = run_G(case) if part == "G" else run_E(case, all_positions=case[5] if len(case) > 5 else True)
+    if part == "P":
+        results, info = run_P(case)
+    elif part == "G":
+        results, info = run_G(case)
+    else:
+        results, info = run_E(case, all_positions=case[5] if len(case) > 5 else True)
     out = []
     seen = set()
     for (rule, mi, detail), how, where in results:
         kind = case[4][mi] if mi < len(case[4]) else "?"
-        sig = f"{rule}|{case[1]}|{'engine' if part == 'E' else 'responder'}|exit={how}|motor={mi}:{kind}"
+        sig = f"{rule}|{case[1]}|{'engine' if part == 'E' else ('pseudo' if part == 'P' else 'responder')}|exit={how}|motor={mi}:{kind}"
         if sig in seen:
             continue  # one representative per signature and case
         seen.add(sig)
